@@ -4,6 +4,7 @@
 import ChessVerif.Lemmas.GivesCheckSpec
 import ChessVerif.Lemmas.LegalFacts
 import ChessVerif.Lemmas.GivesCheckEpSpec
+import ChessVerif.Lemmas.GivesCheckCastleSpec
 import ChessVerif.Lemmas.WfHyp
 import ChessVerif.Lemmas.LegalShape
 import ChessVerif.Lemmas.OKDefs
@@ -231,10 +232,27 @@ example : Spec.wf (Chess.absPos c15EpPos) = true ∧ (⟨36, 43, 0⟩ : Spec.SMo
     Spec.isEpCapture (Chess.absPos c15EpPos) ⟨36, 43, 0⟩ = true ∧
     moveGivesCheck c15EpPos (codeOf (Chess.absPos c15EpPos) ⟨36, 43, 0⟩) = true := by decide +kernel
 
-/-- the remaining part of the full statement (castling), kept visible and decided by the correspondence with
-    the rules spec on every legal move of every sampled position -/
-def C15_Statement : Prop :=
-  ∀ (T : ZTable) (p : Position) (m : Nat), m ∈ genMoves p →
-    moveGivesCheck p m = isInCheck (doMove T p m).1 (doMove T p m).1.side
+/-- **C15, gives-check, full**: on every well-formed position and for EVERY rules-legal move — ordinary moves, promotions, en-passant
+    captures and castling — `move_gives_check` is exactly "the opponent is in check in the position the rules produce".
+    Castling (Lemmas/GivesCheckCastle*.lean) is analysed as two steps of the same side through `gives_check_core`, the king's and then
+    the rook's; neither discovers a check (`no_discovery`), because a ray that passes through the king's home square runs along the
+    back rank and ends on one of the two arrival squares, and nothing lies behind a corner — a finite table over (enemy king square,
+    direction, square) evaluated in the kernel (`castleGeo_WK/WQ/BK/BQ`); so the answer is "the rook on its arrival square sees the
+    king", on the occupancy with all four squares toggled, which is what the engine computes. -/
+theorem C15_gives_check_full (p : Position) (hwf : Spec.wf (Chess.absPos p) = true) (m : Spec.SMove)
+    (hm : m ∈ Spec.legalMoves (Chess.absPos p)) :
+    moveGivesCheck p (codeOf (Chess.absPos p) m) = Spec.inCheck (Spec.apply (Chess.absPos p) m).board (1 - p.side) := by
+  by_cases hnc : Spec.isCastle p.board m = false
+  · exact C15_gives_check_noncastle p hwf m hm hnc
+  · exact gives_check_castle_spec p hwf m hm (by simpa using hnc)
+
+/-- non-vacuity for castling: white Ke1 Rh1, black Kf8: O-O puts the rook on f1 and gives check along the f-file -/
+def c15CastleBoard : List Nat :=
+  [0, 0, 0, 0, 6, 0, 0, 4] ++ List.replicate 48 0 ++ [0, 0, 0, 0, 0, 12, 0, 0]
+def c15CastlePos : Position := { side := 0, halfmove := 0, ply := 1, board := c15CastleBoard, castling := 1, ep := 64, hash := {}, history := [] }
+set_option maxRecDepth 100000 in
+example : Spec.wf (Chess.absPos c15CastlePos) = true ∧ (⟨4, 6, 0⟩ : Spec.SMove) ∈ Spec.legalMoves (Chess.absPos c15CastlePos) ∧
+    Spec.isCastle c15CastlePos.board ⟨4, 6, 0⟩ = true ∧
+    moveGivesCheck c15CastlePos (codeOf (Chess.absPos c15CastlePos) ⟨4, 6, 0⟩) = true := by decide +kernel
 
 end Chess.Props
